@@ -311,6 +311,21 @@ class PrevOracle:
                 new = [n for n in st["applied"] if n not in pst["applied"]]
                 if st["applied"][len(new):] != pst["applied"]:
                     return "stg uncommit did not put the new patches below the applied ones"
+                # the new patches are the commits that lay below the old base, unchanged, in order
+                below = real.r.git(["rev-list", "--first-parent", "-n", str(len(new)),
+                                    (pst["patches"][pst["applied"][0]]["oid"] + "^") if pst["applied"] else prev["branch"]],
+                                   check=False).stdout.split()
+                if [st["patches"][n]["oid"] for n in new] != list(reversed(below)):
+                    return "stg uncommit: the new patches are not the commits below the old base, in order"
+                if not c.get("names"):
+                    # generated names: each is derived from the message of ITS OWN commit
+                    for n in new:
+                        subj = real.r.git(["log", "-1", "--format=%s", st["patches"][n]["oid"]]).stdout.strip()
+                        slug = re.sub(r"[^a-z0-9]+", "-", subj.lower()).strip("-")
+                        stem = lambda x: re.sub(r"-?\d+$", "", x)      # uniquify bumps a trailing number or appends -N
+                        if subj.isascii() and slug and len(slug) <= 30 and stem(n) != stem(slug):
+                            return ("stg uncommit named the commit with subject %r %r (names are derived from each "
+                                    "commit's own message)" % (subj, n))
         if c["c"] == "commit" and ex == 0:
             gone = [n for n in pst["applied"] + pst["unapplied"] if n not in st["patches"]]
             hist = set(real.r.git(["rev-list", "--first-parent", snap["branch"]]).stdout.split())
@@ -387,6 +402,15 @@ class DirtyOracle:
             except OSError:
                 now = None
             if now != content:
+                if ex == 3 and content is not None:
+                    # a conflict halt: when the content the user had is byte for byte "our" side of the
+                    # conflict (index stage 2) it coincided with the tree the command checked out - git's
+                    # two-way merge carries such a file over as clean - and it is still there, as one side
+                    # of the conflict; nothing of the user's was lost
+                    ours = subprocess.run(["git", "show", ":2:" + path], cwd=real.r.path, env=real.r.env(),
+                                          capture_output=True)
+                    if ours.returncode == 0 and ours.stdout == content:
+                        continue
                 return "uncommitted content of %r was changed by `stg %s` (exit %r)" % (path, k, ex)
         return None
 
